@@ -338,9 +338,53 @@ def _tree(task):
     return acc.freeze_sets()
 
 
+def honest_constructions():
+    """Trees in which every aggregator the user passed in is a distinct object, built through the less common constructor
+    forms (explicit (threshold, aggregator) pairs, defaulted nanflow / cut / value arguments, several of them in one tree)."""
+    import histogrammar as hg
+
+    q = lambda d: d["x"]  # noqa: E731
+    s = lambda d: d["s"]  # noqa: E731
+    C_ = hg.Count
+    return {
+        "two Stacks given as (threshold, aggregator) pairs": lambda: hg.Branch(
+            hg.Stack([(float("-inf"), C_()), (1.0, C_())], q, None), hg.Stack([(float("-inf"), C_()), (2.0, C_())], q, None)),
+        "two IrregularlyBins given as (threshold, aggregator) pairs": lambda: hg.Branch(
+            hg.IrregularlyBin([(float("-inf"), C_()), (1.0, C_())], q, None), hg.IrregularlyBin([(float("-inf"), C_()), (2.0, C_())], q, None)),
+        "two CentrallyBins with defaulted value and nanflow": lambda: hg.Label(a=hg.CentrallyBin([0.0, 1.0], q), b=hg.CentrallyBin([0.0, 2.0], q)),
+        "two Bins with defaulted value and flows": lambda: hg.Index(hg.Bin(2, 0.0, 2.0, q), hg.Bin(3, 0.0, 3.0, q)),
+        "two Selects with defaulted cut": lambda: hg.Branch(hg.Select(s), hg.Select(s)),
+        "two Fractions with defaulted value": lambda: hg.Branch(hg.Fraction(s), hg.Fraction(s)),
+        "two Categorizes and two SparselyBins with defaulted value": lambda: hg.UntypedLabel(
+            a=hg.Categorize(lambda d: d["c"]), b=hg.Categorize(lambda d: d["c"]), c=hg.SparselyBin(1.0, q), d=hg.SparselyBin(2.0, q)),
+        "Stack and IrregularlyBin with defaulted value": lambda: hg.Branch(hg.Stack([0.0, 1.0], q), hg.Stack([0.0, 2.0], q),
+                                                                        hg.IrregularlyBin([0.0], q), hg.IrregularlyBin([1.0], q)),
+    }
+
+
+def check_honest(name, mode):
+    from histogrammar.defs import ContainerException
+
+    args = {"honest": name, "mode": mode}
+    try:
+        h = honest_constructions()[name]()
+        for callno in (1, 2, 3):
+            attempt(h, mode, callno)
+    except ContainerException as e:
+        return [FW.violation(PROP, "unshared", "constructed:%s" % mode, "rejected-without-shared-node", args, {"exception": str(e)[:200]})]
+    except Exception as e:
+        return [core.v_exc(PROP, "unshared", "fill of an honestly constructed tree raised", e, args)]
+    return []
+
+
 def _constructed(task):
     kind, mode = task
     acc = FW.Acc()
+    if kind.startswith("honest:"):
+        acc.add(check_honest(kind[7:], mode))
+        acc.n("unshared_cases")
+        acc.distinct("cases", FW.hkey((kind, mode)))
+        return acc.freeze_sets()
     acc.add(check_constructed(kind, mode))
     acc.n("shared_cases")
     acc.n("constructed_cases")
@@ -378,7 +422,8 @@ def trees(tier):
 
 def run(tier, seed):
     ts = trees(tier)
-    tasks = [("tree", (t, tier)) for t in ts] + [("c", (k, m)) for k in CONSTRUCTED for m in ("fill", "numpy")]
+    tasks = [("tree", (t, tier)) for t in ts] + [("c", (k, m)) for k in CONSTRUCTED for m in ("fill", "numpy")] + [
+        ("c", ("honest:" + k, m)) for k in honest_constructions() for m in ("fill", "numpy")]
     accs = FW.pmap(_dispatch, tasks, seed)
     acc = FW.Acc()
     for a in accs:
@@ -405,6 +450,8 @@ def run(tier, seed):
 
 
 def replay(driver, args):
+    if "honest" in args:
+        return check_honest(args["honest"], args["mode"])
     if "constructed" in args:
         return check_constructed(args["constructed"], args["mode"])
     if driver == "unshared":
